@@ -68,6 +68,10 @@ partial def exprOfJson (j : Json) : Expr :=
     else if let .ok v := j.getObjVal? "item" then .itemKey (jstr v)
     else if let .ok v := j.getObjVal? "task_status" then .taskStatus (jstr v)
     else if let .ok v := j.getObjVal? "not" then .not (exprOfJson v)
+    -- a failing expression rendered beside a Jinja raw block: it fails exactly when the inner one does
+    else if let .ok v := j.getObjVal? "rawbad" then exprOfJson v
+    -- two failing expressions in one string: fails as the first does
+    else if let .ok v := j.getObjVal? "twobad" then (match jarr v with | a :: _ => exprOfJson a | [] => .lit .null)
     else
       let a := exprOfJson (jget j "a")
       let b := exprOfJson (jget j "b")
